@@ -28,7 +28,7 @@ COQ_PROPS_C08 = ['Properties_C08_kll']
 RULE_C07 = ('operation scripts over up to 4 registers holding kll_sketch<int64_t>, kll_sketch<double> (integer values, NaN updates and NaN split points) or '
             'kll_sketch<string, greater> (order-isomorphic encoding): k in {8,9,16,20,200} plus refused k (0,7,65536); streams sorted/reversed/random/constant/'
             'heavy duplicates of 0..~1500 items; merges of equal and unequal k, exact/estimating/empty operands, lvalue and rvalue, merge chains and trees '
-            '(level 0 left empty by a merge is frequent; 5 merges of two estimation-mode sketches, k in {200, 20, 50, 30}, in which general_compress itself adds a level, sizes chosen with the size-only simulation, observed before and after and while further updates fill the buffer up to the next compaction: num_retained <= compute_total_capacity(k, num_levels) with the implementation\'s own num_levels; 12 merge trees of depth >= 2 with 3-4 distinct k from 8..400 whose deepest operand is in estimation mode: min_k and the published rank error are checked against the minimum over the tree); after the history every register is observed (n, min, max, num_retained, iterator listing) and queried: '
+            '(level 0 left empty by a merge is frequent; 16 query -> change of content (update, merge of an empty / single-item / exact-mode / estimation-mode source, lvalue and rvalue, copy assignment) -> same queries histories: a cached sorted view must not survive; family klldeep: a sketch merged with a copy of itself 28..36 times (k = 8, 9, 20; 30..40 levels), n, iterator weights, sorted-view total and ranks checked after every merge; 5 merges of two estimation-mode sketches, k in {200, 20, 50, 30}, in which general_compress itself adds a level, sizes chosen with the size-only simulation, observed before and after and while further updates fill the buffer up to the next compaction: num_retained <= compute_total_capacity(k, num_levels) with the implementation\'s own num_levels; 12 merge trees of depth >= 2 with 3-4 distinct k from 8..400 whose deepest operand is in estimation mode: min_k and the published rank error are checked against the minimum over the tree); after the history every register is observed (n, min, max, num_retained, iterator listing) and queried: '
             'rank grid, dyadic quantile grid incl. 0 and 1 and out-of-range ranks, CDF/PMF with valid, unsorted, duplicate and NaN split points, sorted-view listing; '
             'queries are also interleaved with updates (they sort level 0 in place). non-trivial = at least one compaction (coin drawn) or one merge')
 RULE_C08 = ('exhaustive enumeration on the implementation of ALL outcomes of the internal coin flips for short histories (updates and merges over registers; '
@@ -40,7 +40,8 @@ TRUSTED = ['KLL model coq/KllDefs.v + coq/SortedView.v written by hand from kll_
            'coin flips of random_utils::random_bit() are supplied by the harness through the DATASKETCHES_VERIF hook and replayed by the model (their generation is not modelled)',
            'rank numerators are recovered in the harness as llround(rank * n) (IEEE division/multiplication only); quantile ranks in the scripts are dyadic (j / 2^t) so that '
            'rank * n is exact in double arithmetic']
-ASSUMPTIONS = ['n < 2^53 and num_levels <= 61 (uint8/uint16/uint32/uint64 overflow of the implementation is not modelled)',
+ASSUMPTIONS = ['n < 2^53 and num_levels <= 61 (uint8/uint16/uint32/uint64 overflow of the implementation is not modelled); the runs exercise up to ~40 levels '
+               '(n up to ~2^41) through the deep-level histories of family klldeep, the other histories stay below 12 levels',
                'items are totally ordered integers (double sketches receive integer values; NaN only through the dedicated ops); comparator assumed a strict weak order',
                'the clause "within the published error at least as often as claimed" of C08 is statistical and not claimed']
 
@@ -263,6 +264,32 @@ def gen_c07(rng, tier):
                 ops.append([5, 0])
         ops += query_block(rng, 0, kind, xa + xb + xc, thorough)
         cases.append(dict(id='kllgrow%d' % gi, ops=ops, tags=['merge', 'compaction', 'level-added-in-general_compress', 'k=%d' % k]))
+    # a cached sorted view must not survive a change of content: queries (rank / quantile / CDF / view), then update, merge of every
+    # source class (empty, single item, exact mode 2..k-1 items, estimation mode; lvalue and rvalue) or copy assignment, then the SAME queries
+    for vi in range(16 if not thorough else 160):
+        kind = rng.choice([0, 0, 1, 2]); k = rng.choice([8, 8, 9, 16, 20])
+        tn = rng.choice([1, 3, k - 1, k, 3 * k + 1, rng.randrange(1, 10 * k)])          # exact-mode and estimation-mode targets
+        xs = stream(rng, tn)
+        ops = [[99, rng.randrange(1 << 30)], [1, 0, kind, k]] + [[2, 0, x] for x in xs]
+        vals = list(xs)
+        def queries():
+            lo = min(vals); hi = max(vals)
+            q = [[6, 0, x] for x in sorted(set([lo - 1, lo, hi, hi + 1] + [rng.choice(vals) for _ in range(3)]))]
+            q += [[7, 0, j, 2] for j in (0, 1, 2, 3, 4)] + [[8, 0] + sorted(set(rng.sample(vals, min(len(vals), 3)))), [10, 0], [5, 0]]
+            return q
+        ops += queries()
+        change = rng.choice(['merge-empty', 'merge-single', 'merge-exact', 'merge-exact', 'merge-estimation', 'update', 'copy-assign'])
+        if change == 'update':
+            for x in stream(rng, rng.choice([1, 2, k])): ops.append([2, 0, x]); vals.append(x)
+        elif change == 'copy-assign':
+            ys = stream(rng, rng.choice([1, k - 1, 4 * k]))
+            ops += [[1, 1, kind, k]] + [[2, 1, y] for y in ys] + [[13, 0, 1]]; vals[:] = list(ys)
+        else:
+            sn = {'merge-empty': 0, 'merge-single': 1, 'merge-exact': rng.randrange(2, k), 'merge-estimation': rng.randrange(k + 1, 5 * k)}[change]
+            ys = stream(rng, sn); k2 = rng.choice([k, k, 8, 20])
+            ops += [[1, 1, kind, k2]] + [[2, 1, y] for y in ys] + [[4, 0, 1, 1 if rng.random() < 0.4 else 0]]; vals += ys
+        ops += queries()
+        cases.append(dict(id='kllview%d' % vi, ops=ops, tags=['merge' if change.startswith('merge') else 'compaction', 'query-change-query', change]))
     for ti in range(12 if not thorough else 120):
         kind = rng.choice([0, 0, 1, 2])
         ks = rng.sample([8, 9, 12, 16, 20, 50, 200, 400], rng.choice([3, 3, 4]))
@@ -708,7 +735,59 @@ def oracle_c08(case, irecs, mrecs):
                                    (m, x, si, se, (1 << m) * ti, (1 << m) * te), op_index=blocks[0][0] + key))
     return fails
 
-FAMILIES_C07 = [dict(name='kll', harness='drv_kll.cpp', extract='Extract_kll.v', model='model_kll', gen=gen_c07, oracle=oracle_c07)]
+# ---------------------------------------------------------------------------------------------------------------------
+# deep levels (C07): a sketch merged with a copy of itself 28..36 times reaches 30..40 levels with a few hundred retained items
+# (n ~ 2^35..2^41).  The model keeps no ghost log for these merges (op 23 of KllCodecDefs.crun), the oracle tracks n.
+# ---------------------------------------------------------------------------------------------------------------------
+def gen_deep(rng, tier):
+    thorough = tier != 'quick'
+    cases = []
+    for di in range(3 if not thorough else 12):
+        k = [8, 20, 8, 9][di % 4]; kind = rng.choice([0, 1])
+        xs = stream(rng, rng.randrange(k + 1, 3 * k)); lo, hi = min(xs), max(xs)
+        ops = [[99, rng.randrange(1 << 30)], [1, 0, kind, k]] + [[2, 0, x] for x in xs] + [[5, 0]]
+        for j in range(rng.randrange(28, 37)):
+            ops += [[13, 1, 0], [23, 0, 1], [5, 0], [10, 0], [6, 0, hi], [6, 0, lo - 1], [6, 0, rng.choice(xs)]]
+        cases.append(dict(id='klldeep%d' % di, ops=ops, tags=['merge', 'levels>=30', 'k=%d' % k], n0=len(xs), lo=lo, hi=hi))
+    return cases
+
+def oracle_deep(case, irecs, mrecs):
+    fails = []
+    def fail(sig, what, i):
+        fails.append(dict(sig=sig, what=what, op_index=i))
+    n = 0; nmap = {}; lo = hi = None; last_rank = None
+    for i, op in enumerate(case['ops']):
+        if i >= len(irecs): break
+        R = irecs[i]['R']; F = irecs[i].get('F') or []
+        oc = op[0]
+        if oc == 2 and R == [1] and op[1] == 0:
+            n += 1; lo = op[2] if lo is None else min(lo, op[2]); hi = op[2] if hi is None else max(hi, op[2])
+        elif oc == 13 and R == [1]:
+            nmap[op[1]] = n
+        elif oc == 23:
+            if R != [1]: fail('kll_merge_refused', 'merge with a copy of itself refused', i); continue
+            n += nmap.get(op[2], 0); last_rank = None
+        elif oc == 5 and R != [-1] and len(R) >= 8:
+            nret = R[1]; pairs = R[8:]; ws = pairs[1::2]
+            if R[0] != n: fail('kll_n', 'get_n() = %d after the self-merges, expected %d' % (R[0], n), i)
+            if [R[5], R[6]] != [lo, hi]: fail('kll_minmax', 'min/max = %s, stream extremes %s' % (R[5:7], [lo, hi]), i)
+            if R[7] != nret or len(ws) != nret: fail('kll_iterator_length', 'iterator yields %d entries, num_retained %d' % (R[7], nret), i)
+            if sum(ws) != n: fail('kll_iterator_weights', 'iterator weights sum to %d but n = %d (%d levels)' % (sum(ws), n, F[7] if len(F) > 7 else -1), i)
+            if len(F) >= 9 and nret > total_capacity(F[6], F[7]): fail('kll_space_bound', 'num_retained %d above the capacity of %d levels' % (nret, F[7]), i)
+        elif oc == 10 and R != [-1] and R:
+            cs = R[2::2]
+            if R[0] != n or (cs and cs[-1] != n):
+                fail('kll_view_total', 'sorted view total weight %d but n = %d' % (cs[-1] if cs else R[0], n), i)
+            if not strictly_increasing([0] + cs): fail('kll_view_order', 'cumulative weights of the sorted view do not increase', i)
+        elif oc == 6 and R != [-1] and len(R) >= 2:
+            x = op[2]
+            if x >= hi and R[0] != n: fail('kll_rank_top', 'inclusive rank of the maximum is %d, n = %d' % (R[0], n), i)
+            if x < lo and (R[0] != 0 or R[1] != 0): fail('kll_rank_bottom', 'rank of a value below the minimum is %d' % R[0], i)
+            if not (0 <= R[1] <= R[0] <= n): fail('kll_rank_incl_lt_excl', 'rank(%d) = %d/%d outside [0, n] or inclusive < exclusive' % (x, R[0], R[1]), i)
+    return fails
+
+FAMILIES_C07 = [dict(name='kll', harness='drv_kll.cpp', extract='Extract_kll.v', model='model_kll', gen=gen_c07, oracle=oracle_c07),
+                dict(name='klldeep', harness='drv_kll.cpp', extract='Extract_kllcodec.v', model='model_kllcodec', run='crun', gen=gen_deep, oracle=oracle_deep)]
 FAMILIES_C08 = [dict(name='kll', harness='drv_kll.cpp', extract='Extract_kll.v', model='model_kll', gen=gen_c08, oracle=oracle_c08)]
 
 # ---------------------------------------------------------------------------------------------------------------------
